@@ -174,7 +174,9 @@ func (k *Kit) Apply(b *types.Block, parts *types.PartSet, seen *types.Commit, ro
 	if err := st.ValidateBlock(b); err != nil {
 		return fmt.Errorf("ValidateBlock: %v", err)
 	}
-	k.Ang.VerifAsmStore().SaveBlock(b, parts, seen)
+	if store := k.Ang.VerifAsmStore(); store.Height() < b.Height {
+		store.SaveBlock(b, parts, seen)
+	}
 	if err := st.ApplyBlock(k.Ang.VerifAsmEvents(), b, parts.Header(), gemmill.MockMempool{}, round); err != nil {
 		return err
 	}
